@@ -108,8 +108,51 @@ def reference_instants(scenario: str, jitter: float) -> List[int]:
         return [i - int(t0 * 1000) for i in inst]
 
 
+def run_birth(p: Dict[str, Any]) -> Tuple[List[str], str]:
+    """Close requested while the instance is still starting up (k loop iterations after construction)."""
+    from zeroconf.asyncio import AsyncServiceBrowser
+
+    problems: List[str] = []
+    with World(rand=RandPolicy.const(0.0)) as w:
+        log = Log(w)
+        host = w.new_zeroconf(mode=p["socks"], settle=False)
+        AsyncServiceBrowser(host.zc, TB, listener=log)
+        for _ in range(p["k"]):
+            w.loop.run_iteration()
+        if p["mode"] == "async_close":
+            w.run_coro(host.azc.async_close(), max_ms=60_000)
+        else:
+            with w.outside():
+                host.zc.close()
+        n_calls, n_trace = len(log.calls), len(w.net.trace)
+        w.settle()
+        for dt in (1, 300, 5000, 3_600_000):
+            w.advance(dt)
+            w.net.inject(host, wire.response([("PTR", TB, 1, 4500, Z)]), ("10.0.0.97", 5353))
+            w.net.inject(host, wire.response([("PTR", TB, 1, 4500, Z)]), ("fe80::97", 5353, 0, 3))
+            w.settle()
+        open_ = [t.sock for t in host.transports() if not t.closed]
+        if open_:
+            problems.append(f"sockets: {open_} still open after close returned (close requested {p['k']} loop iterations "
+                            f"after construction)")
+        if host.zc.started:
+            problems.append("sockets: the instance reports itself started after close returned")
+        if len(log.calls) > n_calls:
+            problems.append(f"callbacks: {log.calls[n_calls:][:3]} fired after close returned")
+        if len(w.net.trace) > n_trace:
+            problems.append("silence: datagrams transmitted after close returned")
+        excs = w.exceptions()
+        if excs:
+            problems.append(f"exception: {excs[0]}")
+        obs = digest((len(host.transports()), log.calls))
+    return problems, obs
+
+
 def points(tier: str) -> List[Dict[str, Any]]:
     pts: List[Dict[str, Any]] = []
+    for socks in ("single", "dual"):
+        for k in range(0, 12):
+            pts.append({"scenario": "at-birth", "socks": socks, "k": k, "mode": "async_close", "jitter": 0.0, "close_at_us": 0})
     for scenario in SCENARIOS:
         for jitter in ((0.0,) if tier == "quick" else (0.0, 1.0)):
             inst = reference_instants(scenario, jitter)
@@ -126,6 +169,13 @@ def points(tier: str) -> List[Dict[str, Any]]:
 
 def run_point(p: Dict[str, Any], verbose: bool = False) -> Tuple[Optional[Dict[str, Any]], str, int]:
     problems: List[str] = []
+    if p["scenario"] == "at-birth":
+        problems, obs = run_birth(p)
+        verdict = None
+        if problems:
+            verdict = {"what": f"C17 {p}: {problems[0][:600]}", "replay": {"problems": problems[:5]},
+                       "signature": {"check": problems[0].split(":")[0]}}
+        return verdict, obs, 1
     with World(rand=RandPolicy.const(p["jitter"])) as w:
         log = Log(w)
         host, t0 = build(w, p["scenario"], log)
